@@ -1273,6 +1273,8 @@ def _emitter_samples(ctx):
         return SampleObj(__kind__="ArgumentList", args_list=al, parent=None)
 
     def rt(name):
+        if isinstance(name, tuple):              # pair< a, b >
+            return SampleObj(__kind__="ReturnType", type1=ty(name[0]), type2=ty(name[1]), is_void=lambda: False)
         return SampleObj(__kind__="ReturnType", type1=ty(name), type2="", is_void=lambda: name == "void")
     cls = SampleObj(__kind__="InstantiatedClass", name="K", parent=nsn, namespaces=lambda: ["", "ns"], properties=[], to_cpp=lambda: "ns::K",
                     is_virtual=False, parent_class="", template="", instantiations=[], enums=[], ctors=[], operators=[])
@@ -1284,23 +1286,33 @@ def _emitter_samples(ctx):
         m["original"] = m
         return m
     D = ("x", "double", (), None)
-    statics = [decl("StaticMethod", "make", [D]), decl("StaticMethod", "zero", []),
+    statics = [decl("StaticMethod", "make", [D]), decl("StaticMethod", "zero", []), decl("StaticMethod", "both", [D], ret=("double", "size_t")),
+               decl("StaticMethod", "reset", [], ret="void"),
                decl("StaticMethod", "make", [D, ("scale", "double", (), None), ("s", "K", ("ns",), "ns::K( 1,  2 )")]), decl("StaticMethod", "make", [])]
     # (`s` is left out at arity 2 and its name occurs inside the supplied `scale`: names are compared whole)
-    meths = [decl("Method", "at", [("i", "size_t", (), None)]), decl("Method", "size", [], ret="size_t"),
+    meths = [decl("Method", "at", [("i", "size_t", (), None)]), decl("Method", "size", [], ret="size_t"), decl("Method", "span", [D], ret=("double", "size_t")),
              decl("Method", "tag", [("label", "string", (), None, {"is_const": "const", "is_ref": "&"}), ("plain", "string", (), None)], ret="void"),
              decl("Method", "at", [("i", "size_t", (), None), ("j", "size_t", (), None), ("c", "double", (), "0.0")]), decl("Method", "at", [])]
     # (the first declaration is repeated, as happens when two interface files of a module share a helper: the list keeps both)
     funcs = [decl("GlobalFunction", "scale", [D], parent=nsn), decl("GlobalFunction", "scale", [D], parent=nsn),
              decl("GlobalFunction", "scale", [D, ("k", "K", ("ns",), None), ("w", "double", (), "1.0")], parent=nsn),
-             decl("GlobalFunction", "scale", [("label", "string", (), None)], parent=nsn)]
+             decl("GlobalFunction", "scale", [("label", "string", (), None)], parent=nsn),
+             decl("GlobalFunction", "halves", [D], ret=("double", "double"), parent=nsn), decl("GlobalFunction", "clear", [], ret="void", parent=nsn)]
     cls["static_methods"] = statics
     cls["methods"] = meths
+
+    def ctor(specs):
+        c = SampleObj(__kind__="Constructor", name="K", args=mk_args(specs), parent=cls, template="", instantiations=[])
+        c["original"] = c
+        return c
+    # a constructor all of whose parameters are defaulted (its arity-0 overload still passes both defaults), and one with a defaulted tail
+    cls["ctors"] = [ctor([("a", "int", (), "1"), ("b", "double", (), "2.5")]),
+                    ctor([D, ("y", "double", (), None), ("lbl", "string", (), '"k"')])]
     me = sample_wrapper(ctx, module_name="mod", wrapper_id=3, wrapper_map={}, use_boost_serialization=False, __kind__="MatlabWrapper")
     return me, cls, statics, meths, funcs
 
 
-def rule_call_sites_by_evaluation(ctx, rep: Report, rid="I10"):
+def rule_call_sites_by_evaluation(ctx, rep: Report, rid="I10", returns=False):
     """Every branch of a generated .m function passes the id under which the routine of *that* overload is registered: the entry
     of the id map names the member the branch belongs to and takes as many arguments as the branch's guard counts.  Decided by
     running the emitters for static methods, methods and free functions (the analyser's own interpreter; the sample
@@ -1321,7 +1333,20 @@ def rule_call_sites_by_evaluation(ctx, rep: Report, rid="I10"):
             elif which == "wrap_class_methods":
                 env = dict(zip(ps, [me, "ns", cls, list(meths), [False]]))
             else:
-                env = dict(zip(ps, [me, list(funcs)]))
+                # the free functions arrive grouped by name, one call per name
+                names_ = []
+                for f_ in funcs:
+                    if f_["name"] not in names_:
+                        names_.append(f_["name"])
+                if len(ps) != 2:
+                    continue
+                text = ""
+                for nm_ in names_:
+                    t_ = mini_exec(fn, dict(zip(ps, [me, [f_ for f_ in funcs if f_["name"] == nm_]])), budget=120000, methods=methods, classes=classes)
+                    text = text + t_ if isinstance(t_, str) else None
+                if isinstance(text, str):
+                    runs.append((which, fn, text, me))
+                continue
             if len(env) != len(ps):
                 continue
             text = mini_exec(fn, env, budget=120000, methods=methods, classes=classes)
@@ -1333,6 +1358,7 @@ def rule_call_sites_by_evaluation(ctx, rep: Report, rid="I10"):
     if not runs:
         rep.add(rid, "the .m emitters evaluated on sample declarations", True, "not evaluable; I3-I8 decide by structure", f"{ci.mod.rel}:0", nontrivial=False)
         return
+    shape_probs: List[str] = []
     for which, fn, text, me in runs:
         wm = me.get("wrapper_map") if isinstance(me.get("wrapper_map"), dict) else {}
         probs = []
@@ -1365,13 +1391,44 @@ def rule_call_sites_by_evaluation(ctx, rep: Report, rid="I10"):
                     probs.append(f"{cur}: the branch passes id {id_}, registered for `{obj['name']}`")
                 elif count is not None and n_args != count:
                     probs.append(f"{cur}: the branch for {count} argument(s) passes id {id_}, whose routine was built for the overload with {n_args}")
+        shape_probs += _output_shape_problems(text, wm)
         if sorted(seen_ids) != sorted(wm):
             probs.append(f"ids passed by the .m text {sorted(seen_ids)} / ids registered {sorted(wm)}")
         if len(set(seen_ids)) != len(seen_ids):
             probs.append(f"an id is passed by two branches: {sorted(seen_ids)}")
+        if returns:
+            continue
         rep.add(rid, f"{which}:each branch passes the id registered for its own overload", not probs and bool(seen_ids),
                 f"{probs[:3]}: the `case` that the branch reaches runs the routine of another overload (argument count, unwrapping and call belong to "
                 f"that one), or of none", f"{ci.mod.rel}:{fn.lineno}")
+    if returns:
+        rep.add(rid, "the gateway call of every branch is assigned to as many outputs as its overload returns", not shape_probs,
+                f"{shape_probs[:4]}: a void routine assigns no output (MATLAB reports `output argument not assigned` after the C++ call has run), "
+                f"the second value of a pair never reaches the caller", f"{ci.mod.rel}:{runs[0][1].lineno}")
+
+
+def _output_shape_problems(text: str, wm: dict) -> List[str]:
+    """The gateway call of each branch is assigned to as many outputs as the overload registered under its id returns: none
+    for void, `varargout{1}` for one value, `[ varargout{1} varargout{2} ]` for a pair."""
+    out = []
+    for line in text.splitlines():
+        g_ = re.search(r"^(.*?)\b\w+_wrapper\((\d+)\s*,", line)
+        if not g_:
+            continue
+        ent = wm.get(int(g_.group(2)))
+        objs = [x for x in (ent or ()) if isinstance(x, dict) and "return_type" in x and "name" in x]
+        if not objs:
+            continue
+        ov = objs[-1]
+        rt_ = ov["return_type"]
+        n_out = 0 if (callable(rt_.get("is_void")) and rt_["is_void"]()) else (2 if rt_.get("type2") not in ("", None) else 1)
+        lhs = re.sub(r"\s+", "", g_.group(1).split(";")[-1])
+        lhs = re.sub(r"^(?:else)?if.*?\)(?=\[?varargout|$)", "", lhs)
+        got = len(re.findall(r"varargout\{\d+\}", lhs)) if lhs.endswith("=") else 0
+        if got != n_out:
+            kind = ov.get("__kind__", "").replace("Instantiated", "")
+            out.append(f"{kind} {ov['name']}({', '.join(a['name'] for a in ov['args']['args_list'])}) returns {n_out} value(s), the call is assigned to {got} output(s)")
+    return out
 
 
 def _balanced_args(text: str, start: int) -> Optional[List[str]]:
@@ -1415,7 +1472,8 @@ def rule_routines_by_evaluation(ctx, rep: Report, rid="I11", conversions=True):
         groups = mini_exec(gm, dict(zip(func_params(gm), [me, list(funcs)])), budget=60000, methods=methods, classes=classes)
         if not (isinstance(groups, list) and groups and all(isinstance(g_, list) for g_ in groups)):
             raise _PathEval.Unknown("grouping of the sample functions")
-        for which, argv in [("wrap_static_methods", [me, "ns", cls, [False]]), ("wrap_class_methods", [me, "ns", cls, list(meths), [False]])] + \
+        for which, argv in [("wrap_static_methods", [me, "ns", cls, [False]]), ("wrap_class_methods", [me, "ns", cls, list(meths), [False]]),
+                            ("wrap_class_constructors", [me, "ns", cls, "", list(cls["ctors"]), False])] + \
                 [("wrap_global_function", [me, g_]) for g_ in groups]:
             fn = prog.method("MatlabWrapper", which)
             ps = func_params(fn)
@@ -1437,12 +1495,15 @@ def rule_routines_by_evaluation(ctx, rep: Report, rid="I11", conversions=True):
     for fid, text in sorted(routines.items()):
         ent = wm[fid]
         objs = [x for x in ent if isinstance(x, dict) and "args" in x and "name" in x]
+        if not objs and any(x in ("collectorInsertAndMakeBase", "upcastFromVoid", "deconstructor") for x in ent if isinstance(x, str)):
+            continue                                 # the routines around a constructor that belong to the class, not to an overload (I9, I3/I4)
         if not objs or not isinstance(text, str):
             probs.append(f"id {fid}: no routine text / no overload registered")
             continue
         ov = objs[-1]
         kind = ov.get("__kind__", "")
         is_method = kind.endswith("Method") and "Static" not in kind
+        is_ctor = kind == "Constructor"
         supplied = [a["name"] for a in ov["args"]["args_list"]]
         full = ov["args"].get("backup") or ov["args"]
         full_list = full["args_list"]
@@ -1451,7 +1512,9 @@ def rule_routines_by_evaluation(ctx, rep: Report, rid="I11", conversions=True):
         if not head or not head.group(1).endswith(f"_{fid}"):
             probs.append(f"id {fid} [{label}]: the routine is called {head.group(1) if head else '?'}")
         chk = re.search(r'checkArguments\("[^"]*"\s*,\s*nargout\s*,\s*nargin(\s*-\s*1)?\s*,\s*(\d+)\)', text)
-        if not chk:
+        if not chk and is_ctor:
+            pass                                     # the .m constructor picks the routine by `nargin`; the routines of constructors carry no check of their own
+        elif not chk:
             probs.append(f"id {fid} [{label}]: no checkArguments")
         else:
             if int(chk.group(2)) != len(supplied):
@@ -1469,7 +1532,7 @@ def rule_routines_by_evaluation(ctx, rep: Report, rid="I11", conversions=True):
             want_k = k + (1 if is_method else 0)
             if got_in.get(nm) != want_k:
                 probs.append(f"id {fid} [{label}]: parameter {nm} is read from in[{got_in.get(nm)}], it is passed as in[{want_k}]")
-        callee_pat = (r"obj\s*->\s*" if is_method else r"[\w:]*::") + re.escape(ov["name"]) + r"\s*\("
+        callee_pat = (r"obj\s*->\s*" if is_method else r"new\s+[\w:]*::" if is_ctor else r"[\w:]*::") + re.escape(ov["name"]) + r"\s*\("
         cm = re.search(callee_pat, text)
         if not cm:
             probs.append(f"id {fid} [{label}]: no call of the declared {'method on the receiver' if is_method else 'entity'}")
@@ -1479,6 +1542,8 @@ def rule_routines_by_evaluation(ctx, rep: Report, rid="I11", conversions=True):
         norm = [x.lstrip("*").strip() if x.lstrip("*").strip() in supplied else x for x in (args or [])]
         if args is None or norm != want_args:
             probs.append(f"id {fid} [{label}]: calls with ({', '.join(args or [])}), declared order with the omitted defaults is ({', '.join(str(w) for w in want_args)})")
+        if is_ctor:
+            continue
         void = ov["return_type"]["is_void"]() if callable(ov["return_type"].get("is_void")) else False
         if not void and "out[0]" not in text:
             probs.append(f"id {fid} [{label}]: the result is not handed back")
@@ -1812,3 +1877,67 @@ def rule_registry_keeps_every_class(ctx, rep: Report, rid="T21"):
                 detail += f"; {qual}.__eq__ calls {what} equal, and add_class keys its dictionary by the class object"
     rep.add(rid, label, ok, f"{detail}: a class dropped from the registry keeps its classdef and routines but loses its collector, its clean-up block and its RTTI "
             f"entry - the module does not build, or leaks", loc)
+
+
+# ------------------------------------------------------------------------------------------ M20 a returned enum is wrapped as the declared enum
+def rule_returned_enum_by_evaluation(ctx, rep: Report, rid="M20"):
+    """A method that returns an enum hands it to MATLAB as the MATLAB class of the *declared* enum: `ns.K.Mode` for an enum of the
+    class (written unqualified inside the class, or qualified with the class), `ns.Mode` for the enum of the enclosing namespace -
+    also when class and namespace each declare an enum of that name.  Decided by running _collector_return (the analyser's own
+    interpreter; the enum predicates are the program's own) on sample classes."""
+    from .rules_matlab import SampleObj, _PathEval, _Raised, mini_exec
+    ci, prog = mw(ctx)
+    fn = prog.method("MatlabWrapper", "_collector_return")
+    methods = _all_methods(prog, ci)
+    loc = f"{ci.mod.rel}:{fn.lineno}"
+    ps = func_params(fn)
+    me, *_ = _emitter_samples(ctx)
+
+    def world(ns_enums, cls_enums, nsname="ns"):
+        root = SampleObj(__kind__="Namespace", name="", parent="", full_namespaces=lambda: [""])
+        if nsname:
+            nsn = SampleObj(__kind__="Namespace", name=nsname, parent=root, full_namespaces=lambda: ["", nsname])
+        else:
+            nsn = root
+        nsn["content"] = [SampleObj(__kind__="Enum", name=n, parent=nsn) for n in ns_enums]
+        cls = SampleObj(__kind__="InstantiatedClass", __bases__=["Class"], name="K", parent=nsn, namespaces=lambda: ["", nsname] if nsname else [""],
+                        to_cpp=lambda: (nsname + "::K") if nsname else "K", instantiations=[], is_virtual=False, parent_class="", ctors=[], methods=[],
+                        static_methods=[], properties=[], operators=[], template="")
+        cls["enums"] = [SampleObj(__kind__="Enum", name=n, parent=cls) for n in cls_enums]
+        nsn["content"].append(cls)
+        return cls
+
+    def ty(name, ns):
+        return SampleObj(__kind__="Type", typename=SampleObj(__kind__="Typename", name=name, namespaces=list(ns), instantiations=[]),
+                         is_const="", is_ref="", is_ptr="", is_shared_ptr="", is_basic=False)
+    cases = [
+        ("an enum of the class, written unqualified", world(["Level"], ["Mode"]), ty("Mode", []), "ns.K.Mode"),
+        ("an enum of the class, written ns::K::Mode", world(["Level"], ["Mode"]), ty("Mode", ["ns", "K"]), "ns.K.Mode"),
+        ("the enum of the namespace, written ns::Level", world(["Level"], ["Mode"]), ty("Level", ["ns"]), "ns.Level"),
+        ("the enum of the namespace, written unqualified", world(["Level"], ["Mode"]), ty("Level", []), "ns.Level"),
+        ("the class's enum where the namespace has one of the same name, written unqualified", world(["Mode"], ["Mode"]), ty("Mode", []), "ns.K.Mode"),
+        ("the class's enum where the namespace has one of the same name, written ns::K::Mode", world(["Mode"], ["Mode"]), ty("Mode", ["ns", "K"]), "ns.K.Mode"),
+        ("the namespace's enum where the class has one of the same name, written ns::Mode", world(["Mode"], ["Mode"]), ty("Mode", ["ns"]), "ns.Mode"),
+        ("an enum of a class at global scope", world([], ["Mode"], nsname=""), ty("Mode", []), "K.Mode"),
+    ]
+    probs, ran = [], 0
+    for what, cls, t, want in cases:
+        try:
+            text = mini_exec(fn, dict(zip(ps, [me, "obj->f()", t, cls])), budget=40000, methods=methods)
+        except (_PathEval.Unknown, _Raised, TypeError, KeyError, IndexError) as e:
+            continue
+        if not isinstance(text, str):
+            continue
+        ran += 1
+        m_ = re.search(r'wrap_enum\(\s*obj->f\(\)\s*,\s*"([^"]*)"\s*\)', text)
+        if not m_:
+            probs.append(f"{what}: not handed back with wrap_enum ({text.strip()[:60]})")
+        elif m_.group(1) != want:
+            probs.append(f"{what}: wrapped as '{m_.group(1)}', the declared enum is {want}")
+    rep.units["returned_enum_cases_evaluated"] = ran
+    if ran < len(cases):
+        rep.add(rid, "returned enums:by evaluation", True, f"{ran} of {len(cases)} cases evaluable", loc, nontrivial=False)
+    if ran:
+        rep.add(rid, "returned enums:wrapped as the MATLAB class of the declared enum", not probs,
+                f"{probs[:3]}: MATLAB receives an object of another enumeration class (or of none that exists) than the one the interface declares",
+                loc)
